@@ -1089,12 +1089,23 @@ class EventBus:
                 handler_tasks[handler_id] = (task, handler)
 
             # Wait for all handlers to complete
-            for handler_id, (task, handler) in handler_tasks.items():
-                try:
-                    await task
-                except Exception:
-                    # Error already logged and recorded in execute_handler
-                    pass
+            try:
+                for handler_id, (task, handler) in handler_tasks.items():
+                    try:
+                        await task
+                    except Exception:
+                        # Error already logged and recorded in execute_handler
+                        pass
+            except asyncio.CancelledError:
+                # We are being cancelled (stop(), loop shutdown, an enclosing handler's timeout). Only the handler task awaited
+                # right now received that cancellation: do not leave the sibling handlers of this event running unobserved
+                # after the processing lock is released
+                still_running = [task for task, _handler in handler_tasks.values() if not task.done()]
+                for task in still_running:
+                    task.cancel()
+                if still_running:
+                    await asyncio.wait(still_running)
+                raise
         else:
             # otherwise, execute handlers serially, wait until each one completes before moving on to the next
             for handler_id, handler in applicable_handlers.items():
